@@ -34,11 +34,20 @@ type Msg struct {
 	MAC     string `json:"-"`
 }
 
-// Event is one delivery of Msgs[Msg] at clock At (unix ns).
+// Event is one delivery of Msgs[Msg] at clock At (unix ns) or, when Kind is set, one
+// piece of cluster-membership traffic about Node interleaved with the deliveries:
+// "leave" = an authenticated leave notification for Node (signed with LeaveNonce /
+// LeaveTS; leave notifications are HMAC'd and timestamped but not nonce-protected, so
+// a captured one can itself be replayed), "join" = Node registers again (a restart).
 type Event struct {
 	At  int64
 	Msg int
 	Why string
+
+	Kind       string
+	Node       string
+	LeaveNonce string
+	LeaveTS    int64
 }
 
 // Timeline is one generated case.
@@ -199,11 +208,58 @@ func Gen(t *rapid.T, all []Site, keep func(cache string) bool) *Timeline {
 	return tl
 }
 
+// AddMembership interleaves 0-2 leave notifications (each optionally followed by a
+// re-join, optionally replayed later) for the senders of the timeline: right after the
+// first receipt, shortly before a replay, or anywhere in the timeline.
+func (tl *Timeline) AddMembership(t *rapid.T) {
+	n := []int{0, 1, 1, 2}[rapid.IntRange(0, 3).Draw(t, "leaves")]
+	var deliveries []Event
+	for _, ev := range tl.Events {
+		if ev.Kind == "" {
+			deliveries = append(deliveries, ev)
+		}
+	}
+	for i := 0; i < n; i++ {
+		node := tl.Msgs[0].Sender
+		if rapid.IntRange(0, 2).Draw(t, "leaveOther") == 0 {
+			node = map[string]string{"node-a": "node-b", "node-b": "node-a"}[node]
+		}
+		var at int64
+		var why string
+		switch rapid.IntRange(0, 2).Draw(t, "leaveWhen") {
+		case 0:
+			at, why = tl.T0+rapid.Int64Range(0, 2*sec).Draw(t, "leaveAfterFirst"), "right after the first receipt"
+		case 1:
+			d := deliveries[rapid.IntRange(0, len(deliveries)-1).Draw(t, "leaveBefore")]
+			at, why = d.At-rapid.Int64Range(0, 2*sec).Draw(t, "leaveLead"), "shortly before a delivery"
+			if at < tl.T0 {
+				at = tl.T0
+			}
+		default:
+			at, why = tl.T0+rapid.Int64Range(0, 3*int64(tl.Site.TTL)).Draw(t, "leaveAt"), "anywhere"
+		}
+		lv := Event{At: at, Msg: -1, Why: why, Kind: "leave", Node: node,
+			LeaveNonce: fmt.Sprintf("6c65617665%02d", i), LeaveTS: at/sec + int64(rapid.IntRange(-2, 2).Draw(t, "leaveSkew"))}
+		tl.Events = append(tl.Events, lv)
+		if rapid.Bool().Draw(t, "rejoin") {
+			tl.Events = append(tl.Events, Event{At: at + rapid.Int64Range(0, sec).Draw(t, "rejoinAfter"), Msg: -1, Kind: "join", Node: node, Why: "restart"})
+		}
+		if rapid.IntRange(0, 2).Draw(t, "leaveReplayed") == 0 {
+			again := lv
+			again.At = at + rapid.Int64Range(0, int64(tl.Site.Tolerance)).Draw(t, "leaveReplayAfter")
+			again.Why = "captured leave notification replayed"
+			tl.Events = append(tl.Events, again)
+		}
+	}
+	sort.SliceStable(tl.Events, func(i, j int) bool { return tl.Events[i].At < tl.Events[j].At })
+}
+
 // Result of running a timeline.
 type Result struct {
 	Log        []string
 	NonTrivial bool   // a replay of an accepted request arrived while its timestamp was still fresh
 	Excluded   int    // deliveries removed by the known-finding exclusion
+	Membership int    // membership events executed
 	FailClass  string // "" = held
 	FailText   string
 }
@@ -213,7 +269,10 @@ type Result struct {
 // "nonce entry expires while the timestamp is still fresh": a re-delivery of an
 // already accepted request at least one tolerance after its acceptance while it is
 // still inside the window.
-func (tl *Timeline) Run(exclude bool, setClock func(ns int64), deliver func(m *Msg, tol time.Duration) bool) Result {
+//
+// side, if not nil, receives the membership events (Kind != "") in timeline order;
+// they are not judged, only interleaved.
+func (tl *Timeline) Run(exclude bool, setClock func(ns int64), deliver func(m *Msg, tol time.Duration) bool, side func(ev Event)) Result {
 	var r Result
 	tolOf := map[string]time.Duration{}
 	for _, s := range tl.Sites {
@@ -222,6 +281,15 @@ func (tl *Timeline) Run(exclude bool, setClock func(ns int64), deliver func(m *M
 	accepts := make([]int, len(tl.Msgs))
 	first := make([]int64, len(tl.Msgs))
 	for _, ev := range tl.Events {
+		if ev.Kind != "" {
+			if side != nil {
+				setClock(ev.At)
+				side(ev)
+				r.Log = append(r.Log, fmt.Sprintf("%s %-16s %s (%s)", FmtClock(ev.At), "membership:"+ev.Kind, ev.Node, ev.Why))
+				r.Membership++
+			}
+			continue
+		}
 		m := tl.Msgs[ev.Msg]
 		mt := tolOf[m.Type]
 		inWin := InWindow(ev.At, m.TS, mt)
